@@ -212,3 +212,12 @@ def run(res, facts, tier):
     _run_c12_5(res, facts, tier)
     from . import c12_insert
     c12_insert.run_rule(res, facts, tier)
+
+
+_run_c12_6 = run
+
+
+def run(res, facts, tier):
+    _run_c12_6(res, facts, tier)
+    from . import c12_order
+    c12_order.run_rule(res, facts, tier)
